@@ -16,8 +16,8 @@ open Spydr.Edif
       * libraries, the definitions of each library, and the ports, instances and cables of each
         definition carry pairwise different EDIF identifiers ignoring letter case and pairwise
         different names;
-      * an instance that has a reference references a cell declared in the netlist BEFORE the cell it
-        stands in (no dangling reference, no forward reference, no cell instantiating itself);
+      * EVERY instance has a reference, to a cell declared in the netlist BEFORE the cell it stands in
+        (no instance without reference, no dangling or forward reference, no cell instantiating itself);
       * every cable has at least one wire, and every pin on a wire is an existing bit of a port of the
         enclosing cell or of a port of the cell referenced by an instance of the enclosing cell (bit 0
         when the port is not an array);
@@ -27,7 +27,7 @@ open Spydr.Edif
     Proved by invariants over the reader's own folds (`bodyItem` / `parseLibrary` / `libItem` /
     `parseCell` / `parseView` / `ifaceItem` / `viewItem` / `contentsItem` / `parseNet` / `parsePortRef` /
     `multibitAdd`), each analysed on arbitrary input.  Outcomes `Err.unsupported` of the model (inputs
-    outside the modelled subset: duplicate net declarations, `viewRef` without `cellRef`, `(number (e …))`,
+    outside the modelled subset: duplicate net declarations, `(number (e …))`,
     …) are errors, so nothing is claimed for them. -/
 theorem reader_accepts_wellformed (text : List Char) (n : CNetlist) (h : readEdif text = .ok n) : StructWF n :=
   structWF_readEdif text n h
@@ -113,6 +113,24 @@ theorem reader_siblings_distinct (text : List Char) (n : CNetlist) (h : readEdif
   exact ⟨distinct_of_noClash _ hw.ports (hmap _ _ hp), distinct_of_noClash _ hw.insts (hmap _ _ hi),
     distinct_of_noClash _ hw.cables (hmap _ _ hc)⟩
 
+/-- **all_instances_referenced** — for EVERY text: every instance of the netlist the reader returns HAS a reference
+    (and, by `StructWF`, it is a cell declared before the cell the instance stands in).  True of the reader as
+    repaired (e720278, 84106d8); on the unrepaired reader the clause was false — `(instance u1)` without
+    `viewRef` was accepted — which is how finding `edif.reader.instance_without_reference` was found. -/
+theorem all_instances_referenced (text : List Char) (n : CNetlist) (h : readEdif text = .ok n) :
+    AllInstancesReferenced n := by
+  have hs := reader_accepts_wellformed text n h
+  intro l hl d hd i hi
+  obtain ⟨L, hL, rfl⟩ := List.getElem_of_mem hl
+  obtain ⟨D, hD, rfl⟩ := List.getElem_of_mem hd
+  have hzl : (n.libs[L], L) ∈ n.libs.zipIdx := List.mem_zipIdx_iff_getElem?.mpr (List.getElem?_eq_getElem hL)
+  have hzd : (n.libs[L].defs[D], D) ∈ n.libs[L].defs.zipIdx := List.mem_zipIdx_iff_getElem?.mpr (List.getElem?_eq_getElem hD)
+  have hr := List.all_eq_true.mp (hs.cells _ hzl _ hzd).refs i hi
+  unfold InstRefOK at hr
+  cases hir : i.ref with
+  | none => rw [hir] at hr; cases hr
+  | some r => rfl
+
 /-! ### non-vacuity -/
 
 /-- an accepted text (the example design of Props/C05Denote.lean) … -/
@@ -148,20 +166,23 @@ namespace Witness
 def noViewRef : List Char :=
   "(edif n (edifVersion 2 0 0) (edifLevel 0) (keywordMap (keywordLevel 0)) (library work (edifLevel 0) (technology (numberDefinition)) (cell top (cellType GENERIC) (view netlist (viewType NETLIST) (interface (port a (direction INPUT))) (contents (instance u1))))) (design top (cellRef top (libraryRef work))))".toList
 
-theorem noViewRef_eval :
+/-- `(instance u1)` without `(viewRef …)` is REJECTED (as repaired, e720278; finding
+    `edif.reader.instance_without_reference`): no instance is left without a reference -/
+theorem instance_without_viewref_rejected :
     (match readEdif noViewRef with
-     | .ok n => !(decide (AllInstancesReferenced n))
-     | .error _ => false) = true := by decide +kernel
+     | .ok _ => false
+     | .error _ => true) = true := by decide +kernel
 
-/-- **FALSE: "every instance references a declared cell"** — the text `noViewRef` is accepted and its
-    instance `u1` has no reference at all (`(instance u1)` without `(viewRef …)`): a half-built instance. -/
-theorem not_all_instances_referenced : ∃ n, readEdif noViewRef = .ok n ∧ ¬ AllInstancesReferenced n := by
-  have h := noViewRef_eval
-  cases hr : readEdif noViewRef with
-  | error e => rw [hr] at h; cases h
-  | ok n =>
-    rw [hr] at h
-    exact ⟨n, rfl, by simpa using h⟩
+/-- a file whose only instance has a `viewRef` without `cellRef` (it would name the cell being read) -/
+def noCellRef : List Char :=
+  "(edif n (edifVersion 2 0 0) (edifLevel 0) (keywordMap (keywordLevel 0)) (library work (edifLevel 0) (technology (numberDefinition)) (cell top (cellType GENERIC) (view netlist (viewType NETLIST) (interface (port a (direction INPUT))) (contents (instance u1 (viewRef netlist)))))) (design top (cellRef top (libraryRef work))))".toList
+
+/-- `(instance u1 (viewRef netlist))` without `(cellRef …)` is REJECTED (as repaired, 84106d8; finding
+    `edif.reader.instance_of_enclosing_cell`): no cell instantiates itself -/
+theorem viewref_without_cellref_rejected :
+    (match readEdif noCellRef with
+     | .ok _ => false
+     | .error _ => true) = true := by decide +kernel
 
 /-- a file without a design construct -/
 def noDesign : List Char :=
